@@ -2093,6 +2093,7 @@ def rule_name_table(m):
     for f in fs:
         tt = Terms(f)
         disp = f.display()
+        groups = {}
         for n in f.nodes:
             if not (n['k'] == 'CXXOperatorCallExpr' and 'callee' in n and f.unit.decl(n['callee']).get('op') == '='):
                 continue
@@ -2133,12 +2134,18 @@ def rule_name_table(m):
                         (a0[1] in ('<=', '<') and is_size(lhs) and has_index(rhs)):
                     bad = a0
                     break
-            if bad is not None:
-                res.fail(Finding('F-IO.NAMES', disp, 'name store under a growth test', f.nloc(n['i']),
+            groups.setdefault((l[1][1], x), []).append((n['i'], bad))
+        # a name is lost only if *every* store of that index into that table is under a growth test (if / else arms that both
+        # store are complete)
+        for (arr, x), lst in groups.items():
+            if all(b is not None for _, b in lst):
+                nid, bad = lst[0]
+                res.fail(Finding('F-IO.NAMES', disp, 'name store under a growth test', f.nloc(nid),
                                  '`%s` is executed only when `%s` holds, i.e. only while the index is not yet inside the graph: '
                                  'with a vertex-name mapper that does not number names in order of first appearance (the index '
                                  'loader, a caller-supplied mapping) an index first mentioned after a larger one keeps an empty '
-                                 'name, so names[index(x)] = x fails' % (f.expr_text(n['i'])[:70], show(bad, f.unit)[:80])))
+                                 'name, so names[index(x)] = x fails' % (f.expr_text(nid)[:70], show(bad, f.unit)[:80])))
             else:
-                res.ok(dict(function=disp, store=f.expr_text(n['i'])[:80]) if len(res.samples) < 4 else None, fn=disp)
+                for nid, _ in lst:
+                    res.ok(dict(function=disp, store=f.expr_text(nid)[:80]) if len(res.samples) < 4 else None, fn=disp)
     return res
